@@ -741,6 +741,30 @@ def rule_symbolic_hermiticity(rep: Report, repo: Repo):
                 ok = False
     rep.check(ok, R, f"{MOD}::_sympy_to_BlockSeries::op_eval raises ValueError for a provably non-Hermitian term when check_hermitian",
               "expr.is_hermitian is False (three-valued), operator-valued terms exempt", loc(ev))
+    # WHAT is tested: the Taylor coefficient itself (symbols set to 0).  Multiplied by the monomial of the symbols the three-valued
+    # `is_hermitian` becomes None for entries like x**2 - 3*conjugate(x)**2 and the `is False` test can never fire.
+    if len(rs) == 1:
+        from .resolve import env_at as _ea5, resolved as _res5
+        tested = [n.value for t, _p in rs[0][1] for n in ast.walk(t) if isinstance(n, ast.Attribute) and n.attr == "is_hermitian"]
+        if len(tested) != 1:
+            raise AnalysisError(R, "op_eval: the expression whose Hermiticity is tested was not found")
+        guard_if = rs[0][0]
+        while not isinstance(guard_if, ast.If):
+            guard_if = guard_if._parent
+        te = _res5(tested[0], _ea5(guard_if, ev))
+        idx = ev.args.vararg.arg if ev.args.vararg else "index"
+        COEFF = (f"operator_derivatives[{idx}].subs({{_v0: 0 for _v0 in symbols}})", f"operator_derivatives[{idx}].subs(dict.fromkeys(symbols, 0))")
+        txt = norm(te)
+        has_symbols = any(isinstance(x, ast.Name) and x.id == "symbols" for x in ast.walk(te)
+                          if not (isinstance(getattr(x, "_parent", None), ast.comprehension)))
+        if txt in COEFF:
+            rep.ok(R, f"{MOD}::_sympy_to_BlockSeries::op_eval tests the Hermiticity of the Taylor coefficient itself", txt[:100], loc(guard_if))
+        elif any(txt.startswith(c) or c in txt for c in COEFF) and "zip(symbols" in txt:
+            rep.fail(R, f"{MOD}::_sympy_to_BlockSeries::op_eval tests the Hermiticity of the coefficient multiplied by the monomial of the symbols",
+                     f"`{txt[:140]}`: sympy cannot decide is_hermitian for an entry that contains a free symbol, so a non-Hermitian term of order >= 1 "
+                     "is never rejected", loc(guard_if))
+        else:
+            raise AnalysisError(R, f"op_eval: Hermiticity is tested on `{txt[:80]}`, a form that is not understood")
     # the raise precedes the return of the term
     g = CFG(ev)
     dom = g.dominators()
